@@ -102,13 +102,21 @@ def out_of_range(t, mn, mx, value, week53=False):
 # ---------------------------------------------------------------------------------------------------------
 # tree helpers (same-document navigation: an iframe's content is its own document)
 
+_XML = [False]
+
+
+def set_xml(flag):
+    """XML documents (XHTML): element and attribute names are case-sensitive; HTML documents: ASCII case-insensitive."""
+    _XML[0] = bool(flag)
+
+
 def name(e):
-    return lower(e.name)
+    return e.name if _XML[0] else lower(e.name)
 
 
 def attr(e, a):
     for k, v in e.attrs.items():
-        if lower(str(k)) == a:
+        if (str(k) if _XML[0] else lower(str(k))) == a:
             return v
     return None
 
